@@ -1516,6 +1516,10 @@ class BootstrapElectionModel(BaseElectionModel):
             aggregate_temp_column_name = "-".join(aggregate)
             all_units[aggregate_temp_column_name] = all_units[aggregate].agg("_".join, axis=1)
             dummies = pd.get_dummies(all_units[aggregate_temp_column_name])
+            # get_dummies orders its columns by the joined string, the aggregate tables are ordered by the key columns;
+            # the two differ when one key value is a prefix of another ("VA_1_51001" sorts after "VA_10_51003"),
+            # so put the columns in the order of the keys
+            dummies = dummies[all_units.sort_values(aggregate)[aggregate_temp_column_name].unique()]
         else:
             # since aggregate is of length zero we can grab the first element
             dummies = pd.get_dummies(all_units[aggregate[0]])
@@ -1665,6 +1669,10 @@ class BootstrapElectionModel(BaseElectionModel):
             aggregate_temp_column_name = "-".join(aggregate)
             all_units[aggregate_temp_column_name] = all_units[aggregate].agg("_".join, axis=1)
             dummies = pd.get_dummies(all_units[aggregate_temp_column_name])
+            # get_dummies orders its columns by the joined string, the aggregate tables are ordered by the key columns;
+            # the two differ when one key value is a prefix of another ("VA_1_51001" sorts after "VA_10_51003"),
+            # so put the columns in the order of the keys
+            dummies = dummies[all_units.sort_values(aggregate)[aggregate_temp_column_name].unique()]
         else:
             # since aggregate is of length one, we can grab the first element
             dummies = pd.get_dummies(all_units[aggregate[0]])
